@@ -292,8 +292,12 @@ func (ex *Exec) typeFacts(v Term, t types.Type) {
 	}
 }
 
-// maxLen: stated assumption — no string/slice is longer than 2^56 bytes.
-const maxLen = "72057594037927936"
+// maxAllocElems: make() with a larger capacity is treated as a run-time failure (Go panics with
+// "cap out of range" or dies with out-of-memory well before this).
+const maxAllocElems = "140737488355328"
+
+// maxLen: stated assumption — no string/slice is longer than 2^46 bytes.
+const maxLen = "70368744177664"
 
 // ---------- locations ----------
 
@@ -426,7 +430,9 @@ func newExec(q *Q, fn *ssa.Function, parent *Exec) *Exec {
 		counters: map[string]int{}, closures: map[ssa.Value]*ssa.MakeClosure{}, witness: map[string]SV{}}
 	ex.root = ex
 	if parent != nil {
-		ex.root = parent.root
+		if parent.root != nil {
+			ex.root = parent.root
+		}
 		ex.depth = parent.depth + 1
 		ex.stack = append(append([]*ssa.Function{}, parent.stack...), fn)
 		ex.counters = parent.counters
@@ -677,7 +683,7 @@ func (ex *Exec) instr(ins ssa.Instruction, b *ssa.BasicBlock, h *Heap, reach Ter
 	case *ssa.MakeSlice:
 		ln := ex.ival(x.Len)
 		cp := ex.ival(x.Cap)
-		ex.safety("safe.makeslice", reach, and(le(tInt(0), ln), le(ln, cp), le(cp, app(sInt, "*", tInt(2), tIntS(maxLen)))), x, "make([]T, len, cap) with negative or huge size")
+		ex.safety("safe.makeslice", reach, and(le(tInt(0), ln), le(ln, cp), le(cp, tIntS(maxAllocElems))), x, "make([]T, len, cap) with negative or out-of-range size (cap > 2^47 elements)")
 		base := ex.alloc(h, "slice")
 		et := x.Type().Underlying().(*types.Slice).Elem()
 		key := ex.memKey(et)
@@ -823,6 +829,12 @@ func panicMessage(p *ssa.Panic) string {
 	if b, ok := v.(*ssa.BinOp); ok {
 		if c, ok := b.X.(*ssa.Const); ok && c.Value != nil && c.Value.Kind() == constant.String {
 			return constant.StringVal(c.Value) + "..."
+		}
+	}
+	if call, ok := v.(*ssa.Call); ok && len(call.Call.Args) > 0 {
+		// panic(fmt.Sprintf("format...", ...))
+		if c, ok := call.Call.Args[0].(*ssa.Const); ok && c.Value != nil && c.Value.Kind() == constant.String {
+			return constant.StringVal(c.Value)
 		}
 	}
 	return "<dynamic>"
